@@ -40,9 +40,14 @@ func OpTrace(log []Ev) string {
 				ch = 'a'
 			}
 		case "rdeadline":
-			ch = 'c'
+			ch = 'e'
 			if e.Armed {
 				ch = 'r'
+			}
+		case "wdeadline":
+			ch = 'v'
+			if e.Armed {
+				ch = 'w'
 			}
 		case "close":
 			ch = 'x'
@@ -117,6 +122,9 @@ func (x *Ctx) FinishHandshake(c *Conn, call *Call, o HsOpts) (ok bool) {
 		}
 		if last >= 0 && log[last].Armed {
 			x.Violate("deadline-not-cleared", fmt.Sprintf("%s succeeded but the last deadline event is not a clear; log: %s", call.Name, LogSummary(log)))
+		} else if ra, wa := c.Halves(); ra || wa {
+			// SetDeadline arms the read and the write half; both must be removed on success
+			x.Violate("deadline-left-armed-after-handshake", fmt.Sprintf("%s succeeded but the conn's deadline is still armed (read half %v, write half %v): an established connection would be killed by the stale handshake timer; conn operations %s", call.Name, ra, wa, OpTrace(log)))
 		}
 	} else {
 		x.Outcome = "err:" + ErrClass(call.Err)
@@ -304,6 +312,9 @@ func (x *Ctx) WriteProbe(c *Conn, ep net.Conn, payload []byte, failWith error) (
 	c.ScriptConn.WriteErr = nil
 	if st != Finished || call.Panic != nil {
 		return nil, false
+	}
+	if failWith == nil && call.Err != nil && ErrClass(call.Err) == "timeout" {
+		x.Violate("stale-deadline-write", fmt.Sprintf("Write on the established connection timed out although only the handshake ever armed a deadline (write half left armed); conn operations %s", OpTrace(c.Log())))
 	}
 	if failWith != nil && call.Err == nil && len(payload) > 0 {
 		x.Violate("write-error-swallowed", "Write returned nil although the network write failed")
